@@ -1,14 +1,26 @@
 #!/bin/bash
-# seed_eval.sh <seed_dir containing patch.diff demo.py> <Cxx> [more props]: confirm the demo in a scratch worktree, then run checks with the patch applied to /repo
+# seed_eval.sh <seed_dir containing patch.diff demo.py> <Cxx> [more props]
+# 1. confirm the demo in a scratch worktree (exit 0 clean, 1 patched)
+# 2. run the checks against the patched code: by default the patch is applied to /repo itself and
+#    reverted afterwards; with SEED_MODE=worktree the checks run against the patched scratch worktree
+#    (VERIF_REPO) so that /repo is not disturbed while other runs are using it.
 set -u
 d=$1; shift
 wt=/tmp/seedwt_$$
 git -C /repo worktree add -q --detach $wt HEAD || exit 2
 ( cd $wt && PYTHONPATH=$wt /venv/bin/python $d/demo.py >/dev/null 2>&1; echo "demo clean exit=$?" )
 ( cd $wt && git apply $d/patch.diff && PYTHONPATH=$wt /venv/bin/python $d/demo.py >/dev/null 2>&1; echo "demo patched exit=$?" )
-git -C /repo worktree remove --force $wt
-git -C /repo apply $d/patch.diff || { echo "patch does not apply to /repo"; exit 3; }
-for p in "$@"; do
-  ( cd /verif && ./check $p 2>&1 | grep -E "^VIOLATION|^#  |tier=" | head -4 )
-done
-git -C /repo checkout -- .
+if [ "${SEED_MODE:-repo}" = worktree ]; then
+  for p in "$@"; do
+    ( cd /verif && VERIF_REPO=$wt ./check $p 2>&1 | grep -E "^VIOLATION|^#  |tier=" | head -4 )
+  done
+  git -C /repo worktree remove --force $wt
+  ( cd /verif && python3 harness/build.py >/dev/null 2>&1 )   # regenerate Gen from /repo again
+else
+  git -C /repo worktree remove --force $wt
+  git -C /repo apply $d/patch.diff || { echo "patch does not apply to /repo"; exit 3; }
+  for p in "$@"; do
+    ( cd /verif && ./check $p 2>&1 | grep -E "^VIOLATION|^#  |tier=" | head -4 )
+  done
+  git -C /repo checkout -- .
+fi
